@@ -12,6 +12,8 @@ import (
 
 	"github.com/welllog/golib/vshim/core"
 	"github.com/welllog/golib/vshim/vatomic"
+	"github.com/welllog/golib/vshim/vchan"
+	"github.com/welllog/golib/vshim/vtime"
 	"github.com/welllog/golib/vshim/vruntime"
 	"github.com/welllog/golib/vshim/vsync"
 )
@@ -228,6 +230,33 @@ func main() {
 		return c
 	}, Check: func(x *core.Exec, ctx any) *core.Failure { finals[ctx.(*c1).x] = true; return nil }}, sched.Unbounded)
 	expect("three racy increments: finals {1,2,3}", len(finals) == 3 && finals[1] && finals[2] && finals[3], "finals %v", finals)
+
+	// 9. select: both ready cases are explored; a timer may fire before or after the other event
+	picks := map[int]bool{}
+	explore(sched.Scenario{Name: "select-choice", Build: func(x *core.Exec) any {
+		a, b := vchan.Make[int](1), vchan.Make[int](1)
+		a.Send(1)
+		b.Send(2)
+		x.Spawn("t", func(t *core.Thread) {
+			t.Op("select", nil, func() any { i := vchan.Select(vchan.RecvCase(a), vchan.RecvCase(b)); picks[i] = true; return i })
+		})
+		return nil
+	}}, sched.Unbounded)
+	expect("select with two ready cases: both explored", picks[0] && picks[1], "picks %v", picks)
+	picks = map[int]bool{}
+	r = explore(sched.Scenario{Name: "select-timer", Build: func(x *core.Exec) any {
+		done := vchan.Make[int](1)
+		x.Spawn("worker", func(t *core.Thread) { t.Op("work", nil, func() any { done.Send(1); return nil }) })
+		x.Spawn("waiter", func(t *core.Thread) {
+			t.Op("wait", nil, func() any {
+				i := vchan.Select(vchan.RecvCase(done), vchan.RecvCase(vtime.After(time.Second)))
+				picks[i] = true
+				return i
+			})
+		})
+		return nil
+	}}, sched.Unbounded)
+	expect("select against a virtual timer: completion and timeout both explored, no deadlock", picks[0] && picks[1] && r.Violation == nil, "picks %v violation %q", picks, sig(r))
 
 	if failed {
 		os.Exit(1)
